@@ -89,13 +89,13 @@ class LowerExc(Rule):
     """Exception lowering for one getter body (DESIGN.md 3.3), at most one un-nested try statement:
 
         try { B } catch (const T& [v]) { H }
-    ->  { B' }  verif_catch_1:  if (!verif_exc) { } else if (VERIF_CATCHES(verif_exc, EXC_T)) { verif_exc = 0; H' } else { return RET; }
+    ->  { B' } goto verif_end_1;  verif_catch_1: if (VERIF_CATCHES(verif_exc, EXC_T)) { verif_exc = 0; H' } else { return RET; }  verif_end_1: ;
 
     `throw X(...);` becomes `{ verif_exc = EXC_X; RAISE }` and the marker `VERIF_RAISE;` (written by the call-rewriting rules after
     every may-throw call: `f(...); if (verif_exc) VERIF_RAISE;`) becomes RAISE, where RAISE = `goto verif_catch_1;` inside the
     protected block and `return RET;` everywhere else (handlers included: an exception raised in a handler leaves the function).
     Gates (extraction break otherwise): every call expression names a callee of the may-throw or no-throw table; every
-    may-throw call is followed by the propagation test (or is the operand of a `return` outside any try block); handler declarations are exactly `handlers`, lowered in source order."""
+    may-throw call is followed by the propagation test (or is the operand of a `return` outside any try block); the number of handlers is len(handlers); their exception types are read from the text and lowered in source order."""
     KEYWORDS = {'if', 'for', 'while', 'switch', 'catch', 'return', 'sizeof', 'VERIF_CATCHES'}
 
     def __init__(self, handlers, maythrow, nothrow, ret='0'):
@@ -138,19 +138,24 @@ class LowerExc(Rule):
                 he = lex.match_close(m, h)
                 hs.append((' '.join(text[p_ + 1:pe].split()), text[h + 1:he]))
                 k = he + 1
-            if [d for d, _ in hs] != self.handlers:
-                raise ExtractionBreak('%s: handlers are %r, the lowering table expects %r' % (where, [d for d, _ in hs], self.handlers))
+            # the handler *types* come from the text (a changed type changes the lowered condition); only the count is pinned
+            if len(hs) != len(self.handlers):
+                raise ExtractionBreak('%s: handlers are %r, the lowering table expects %d handler(s)' % (where, [d for d, _ in hs], len(self.handlers)))
             out = self._low(text[:t], ret)
             blk = '{ /* protected block */' + self._low(text[b + 1:be], 'goto verif_catch_1;') + '}\n'
             prot = (len(out), len(out) + len(blk))
             out += blk
-            out += '  verif_catch_1:\n  if (!verif_exc) { /* protected block completed: no handler runs */ }\n'
+            # a block that completes normally skips the handlers; verif_catch_1 is entered only by a raise (verif_exc != 0)
+            out += '  goto verif_end_1;\n  verif_catch_1:\n'
+            first = True
             for d, htext in hs:
                 mo = re.fullmatch(r'const (\w+)\s*&\s*(\w+)?', d)
                 if not mo:
                     raise ExtractionBreak('%s: unsupported exception declaration %r' % (where, d))
-                out += '  else if (VERIF_CATCHES(verif_exc, EXC_%s)) { verif_exc = 0;%s}\n' % (mo.group(1), self._low(htext, ret))
+                out += '  %sif (VERIF_CATCHES(verif_exc, EXC_%s)) { verif_exc = 0;%s}\n' % ('' if first else 'else ', mo.group(1), self._low(htext, ret))
+                first = False
             out += '  else { %s /* no handler matches: the exception propagates */ }\n' % ret
+            out += '  verif_end_1: ;\n'
             out += self._low(text[k:], ret)
         m = lex.mask(out)
         for mo in re.finditer(r'\b([A-Za-z_]\w*)\s*\(', m):
@@ -262,6 +267,7 @@ def unused_unit(ctx, src):
     return u
 
 
+REPLAY_SOURCES = ['src/Arguments.cc', 'src/Strings.cc', 'src/Filesystem.cc', 'src/Process.cc', 'src/Time.cc']
 OOR = ['const out_of_range&']
 RAISE = ' if (verif_exc) VERIF_RAISE;'
 
@@ -275,33 +281,33 @@ def getter_units(ctx, src):
                 rules=[Rule('auto& values = self->named.at(name);', 'ArgVec* values; C17_map_at(&values, &self->named, name);' + RAISE, count=1),
                        Rule('values.empty()', '(values->size == 0)', count=1),
                        Rule('values.size()', 'values->size', count='+'),
-                       Rule(r'\bvalues\[(\w+)\]\.used\b', r'values->data[\1].used', count='+', regex=True),
+                       Rule(r'\bvalues\[(\w+)\]\.used\b', r'values->data[\1].used', regex=True),
                        Rule(r'return values\[(\w+)\]\.text;', r'return &values->data[\1].text;', count=1, regex=True),
                        Rule('return empty_string;', 'return &C17_empty_string;', count=1),
                        LowerExc(OOR, ['C17_map_at'], [])])
     us.function(src, HH, r'const RetT& get\(size_t position, bool throw_if_missing = true\)', scope=ARGS,
                 new_header='const vstr* Arguments_get_string_pos(Arguments* self, size_t position, bool throw_if_missing)',
                 rules=[Rule('auto& arg = self->positional.at(position);', 'ArgText* arg; C17_vec_at(&arg, &self->positional, position);' + RAISE, count=1),
-                       Rule(r'\barg\.used\b', 'arg->used', count='+', regex=True),
+                       Rule(r'\barg\.used\b', 'arg->used', regex=True),
                        Rule('return arg.text;', 'return &arg->text;', count=1),
                        Rule('return empty_string;', 'return &C17_empty_string;', count=1),
                        LowerExc(OOR, ['C17_vec_at'], [])])
     us.function(src, HH, r'RetT get\(const char\* id\)', scope=ARGS,
                 new_header='bool Arguments_get_bool(Arguments* self, const vstr* id)',
-                rules=[Rule('self->get<string>(id, true);', 'Arguments_get_string_named(self, id, true);' + RAISE, count=1),
+                rules=[Rule(r'self->get<string>\(id, (\w+)\);', r'Arguments_get_string_named(self, id, \1);' + RAISE, count=1, regex=True),
                        LowerExc(OOR, ['Arguments_get_string_named'], [])])
     us.function(src, HH, r'inline std::vector<ArgText>& get_values_multi\(const std::string& name\)', scope=ARGS,
                 new_header='ArgVec* Arguments_get_values_multi(Arguments* self, const vstr* name)',
                 rules=[Rule('return self->named.at(name);', '{ ArgVec* verif_r; C17_map_at(&verif_r, &self->named, name);' + RAISE + ' return verif_r; }', count=1),
-                       Rule(r'static vector<ArgText> empty_vec;\s*return empty_vec;', 'return &C17_empty_vec;', count=1, regex=True),
+                       Rule(r'static vector<ArgText> empty_vec;\s*return empty_vec;', 'return &C17_empty_vec;', regex=True),
                        LowerExc(OOR, ['C17_map_at'], [])])
     us.write()
     ut = Unit(ctx, 'getters_typed')
     ut.raw('#if !C17_FLOAT')
     ut.function(src, HH, r'RetT get\(const IdentT& id, IntFormat format = IntFormat::DEFAULT\)', scope=ARGS,
                 new_header='RetT GI_NAME(Arguments* self, IdentT id, int format)',
-                rules=[Rule('return self->parse_int<RetT>(id, self->get<string>(id, true), format);',
-                            '{ const vstr* verif_t = GET_STRING(self, id, true);' + RAISE + ' return PI_NAME(ID_PTR(id), verif_t, format); }', count=1),
+                rules=[Rule(r'return self->parse_int<RetT>\(id, self->get<string>\(id, (\w+)\), format\);',
+                            r'{ const vstr* verif_t = GET_STRING(self, id, \1);' + RAISE + ' return PI_NAME(ID_PTR(id), verif_t, format); }', count=1, regex=True),
                        LowerExc([], ['GET_STRING', 'PI_NAME'], ['ID_PTR'])])
     ut.function(src, HH, r'RetT get\(const IdentT& id, RetT default_value, IntFormat format = IntFormat::DEFAULT\)', scope=ARGS,
                 new_header='RetT GID_NAME(Arguments* self, IdentT id, RetT default_value, int format)',
@@ -311,7 +317,7 @@ def getter_units(ctx, src):
     ut.function(src, HH, r'RetT get\(const IdentT& id, std::optional<RetT> default_value = std::nullopt\)', scope=ARGS,
                 new_header='RetT GF_NAME(Arguments* self, IdentT id, C17_OPT default_value)',
                 rules=[Rule('const string* text;', 'const vstr* text;', count=1),
-                       Rule('text = &self->get<string>(id, true);', 'text = GET_STRING(self, id, true);' + RAISE, count=1),
+                       Rule(r'text = &self->get<string>\(id, (\w+)\);', r'text = GET_STRING(self, id, \1);' + RAISE, count=1, regex=True),
                        Rule('default_value.has_value()', 'default_value.has_value', count=1),
                        Rule('*default_value', 'default_value.value', count=1),
                        Rule('return self->parse_float<RetT>(id, *text);', 'return PF_NAME(ID_PTR(id), text);', count=1),
@@ -321,6 +327,77 @@ def getter_units(ctx, src):
     return us, ut
 
 
+GM_LOOP = """
+__CPROVER_assigns(verif_j, verif_exc, ret->size, g_out_written, g_out_val, g_out_ptr, g_wit_j; verif_vals->size > 0: __CPROVER_object_whole(verif_vals->data))
+__CPROVER_loop_invariant(verif_j <= verif_vals->size && verif_exc == EXC_none && ret->size == verif_j)
+__CPROVER_loop_invariant((verif_vals == g_vals && g_nj < verif_j) ==> (C17_GM_ELEM_OK && verif_vals->data[g_nj].used))
+__CPROVER_loop_invariant((verif_vals == g_vals && g_nj >= verif_j && g_nj < verif_vals->size) ==> (verif_vals->data[g_nj].used == g_njused && !g_out_written))
+__CPROVER_decreases(verif_vals->size - verif_j)
+"""
+
+
+def multi_unit(ctx, src):
+    """get_multi<std::string|integral|floating>(name[, format]): one loop over get_values_multi(name); the result vector is the
+    out-parameter `ret` (ghost element view), parse_int / parse_float are called through GM_PARSE (abstract outcome per element)."""
+    u = Unit(ctx, 'get_multi')
+    FOR = Rule(r'for \(auto& (\w+) : self->get_values_multi\(name\)\) \{',
+               r'ArgVec* verif_vals = Arguments_get_values_multi(self, name);\n    for (size_t verif_j = 0; verif_j < verif_vals->size; verif_j++) { ArgText* \1 = &verif_vals->data[verif_j];',
+               count=1, regex=True)
+    common = [Rule(r'vector<(\w+)> ret;', '', count=1, regex=True), FOR, Rule('return ret;', 'return;', count=1)]
+    gate = LowerExc([], ['GM_PARSE'], ['Arguments_get_values_multi', 'C17_out_emplace_back', 'C17_out_emplace_back_str'], ret='')
+    u.raw('#if C17_GM_KIND == 0')
+    u.function(src, HH, r'requires\(std::is_same_v<RetT, std::string>\)\s*std::vector<RetT> get_multi\(const std::string& name\)', scope=ARGS,
+               new_header='void GM_NAME(Arguments* self, C17_outvec* ret, const vstr* name)',
+               rules=common + [Rule('ret.emplace_back(value.text);', 'C17_out_emplace_back_str(ret, &value->text);', count=1),
+                               Rule(r'\bvalue\.used\b', 'value->used', regex=True), gate],
+               nloops=1, loops={1: GM_LOOP})
+    u.raw('#elif C17_GM_KIND == 1')
+    u.function(src, HH, r'std::vector<RetT> get_multi\(const std::string& name, IntFormat format = IntFormat::DEFAULT\)', scope=ARGS,
+               new_header='void GM_NAME(Arguments* self, C17_outvec* ret, const vstr* name, int format)',
+               rules=common + [Rule(r'ret\.emplace_back\(self->parse_int<RetT>\(name, v\.text, format\)\);',
+                                    '{ g_wit_j = verif_j; RetT verif_e = GM_PARSE(name, &v->text, format);' + RAISE + ' C17_out_emplace_back(ret, verif_e); }', count=1, regex=True),
+                               Rule(r'\bv\.used\b', 'v->used', regex=True), gate],
+               nloops=1, loops={1: GM_LOOP})
+    u.raw('#else')
+    u.function(src, HH, r'requires\(std::is_floating_point_v<RetT>\)\s*std::vector<RetT> get_multi\(const std::string& name\)', scope=ARGS,
+               new_header='void GM_NAME(Arguments* self, C17_outvec* ret, const vstr* name)',
+               rules=common + [Rule(r'ret\.emplace_back\(self->parse_float<RetT>\(name, v\.text\)\);',
+                                    '{ g_wit_j = verif_j; RetT verif_e = GM_PARSE(name, &v->text, 0);' + RAISE + ' C17_out_emplace_back(ret, verif_e); }', count=1, regex=True),
+                               Rule(r'\bv\.used\b', 'v->used', regex=True), gate],
+               nloops=1, loops={1: GM_LOOP})
+    u.raw('#endif')
+    u.write(suffix='.inc')
+    return u
+
+
+SPLIT_LOOP = """
+__CPROVER_assigns(z, verif_exc, current_quote, in_space_between_args, ret->ntok, ret->curlen, g_plain, g_ref_words, g_ref_start, g_ref_chars, g_snap_words, g_snap_start, g_rec, g_rec_tok, g_rec_off, g_rec_ch, g_npush)
+__CPROVER_loop_invariant(z <= s->size && verif_exc == EXC_none && ret->ntok <= z && (in_space_between_args || ret->ntok > 0))
+__CPROVER_loop_invariant(g_plain ==> (current_quote == 0 && in_space_between_args == (z == 0 || C17_BLANK(s->data[z - 1])) && ret->ntok == g_ref_words && g_npush == g_ref_chars))
+__CPROVER_loop_invariant((g_plain && !in_space_between_args) ==> (g_ref_start < z && ret->curlen == z - g_ref_start))
+__CPROVER_loop_invariant((g_plain && g_ck < z) ==> (C17_BLANK(s->data[g_ck]) ? !g_rec : C17_SPLIT_REC_OK(s)))
+__CPROVER_loop_invariant(g_ck >= z ==> !g_rec)
+__CPROVER_decreases(s->size - z)
+"""
+
+
+def split_unit(ctx, src):
+    u = Unit(ctx, 'split_args')
+    u.function(src, STR, r'vector<string> split_args\(const string& s\)', new_header='void split_args(C17_tokvec* ret, const vstr* s)', ret_zero='',
+               rules=[Rule('vector<string> ret;', '', count=1),
+                      Rule('s.size()', 's->size', count='+'),
+                      Rule(r'\bs\[z\]', 's->data[z]', count='+', regex=True),
+                      Rule('ret.emplace_back();', 'C17_tok_new(ret);', count='+'),
+                      Rule(r'ret\.back\(\)\.push_back\((\w+)\);', r'C17_tok_push(ret, \1);', count='+', regex=True),
+                      Rule(r'\bisblank\(', 'C17_isblank(', count='+', regex=True),
+                      Rule('return ret;', 'return;', count=1),
+                      # lock-step ghost specification, advanced once per iteration before the code looks at s[z]
+                      Rule(r'(for \(size_t z = [^{]*\{)', r'\1 C17_SPLIT_GHOST_STEP;', count=1, regex=True)],
+               nloops=1, loops={1: SPLIT_LOOP})
+    u.write()
+    return u
+
+
 def plan(ctx):
     src = Source(ctx.src)
     groups = []
@@ -328,7 +405,7 @@ def plan(ctx):
     umask = mask_unit(ctx, src)
     ui, uf = parse_units(ctx, src)
     ctx.functions_under_contract = ui.functions + uf.functions
-    RP = dict(driver='C17/arguments.cc', sources=ALL_LIB)
+    RP = dict(driver='C17/arguments.cc', sources=REPLAY_SOURCES)
     classes = [(1, '')] + ([(2, '.embedded_nul')] if EMBEDDED_NUL_IN_SCOPE else [])
     for ty, w, sg in INT_TYPES:
         for cls, sfx in classes:
@@ -377,6 +454,27 @@ def plan(ctx):
                             clause_note='contracts/C17_getters.h: present => the text and used = true; absent => out_of_range or the empty default; '
                                         'no other used flag changes',
                             replay=Replay(mode='getter', extra=[fn], **RP)))
+    groups.append(Group(name='Arguments.used_bookkeeping[<=2 positional]', harness='harness/C17/bookkeeping.c', entry='l_bookkeeping',
+                        function='get<std::string>(position) ; assert_none_unused', replace=['Arguments_get_string_pos', 'Arguments_assert_none_unused'],
+                        kind='bounded', bound='command lines of at most 2 positional arguments and no options, every subset of reads (composition of the two contracts)',
+                        min_post=3, replay=Replay(mode='unused', **RP)))
+    usp = split_unit(ctx, src)
+    ctx.functions_under_contract += usp.functions
+    groups.append(Group(name='Strings.split_args.plain', harness='harness/C17/split.c', entry='h_split_args', function='split_args',
+                        enforce='split_args', loops=True, kind='loop-contract', min_post=5, fallback_unwind=10, timeout=300,
+                        clause_note='contracts/C17_split.h: a command line without quotes, backslashes and NULs is split into exactly its maximal '
+                                    'non-blank runs, in order, byte for byte, without throwing; any input: only runtime_error',
+                        replay=Replay(mode='split', small_define='VERIF_SMALL', **RP)))
+    um = multi_unit(ctx, src)
+    ctx.functions_under_contract += um.functions
+    for kind, ty in [(0, 'std::string'), (1, 'int32_t'), (1, 'uint8_t'), (2, 'double')]:
+        cty = 'int' if kind == 0 else ty
+        groups.append(Group(name='Arguments.get_multi[%s]' % ty, harness='harness/C17/get_multi.c', entry='h_get_multi',
+                            function='Arguments::get_multi<%s>' % ty, enforce='get_multi__' + cty, replace=(['GM_PARSE'] if kind else []),
+                            loops=True, kind='loop-contract', defines=['C17_GM_KIND=%d' % kind, 'RetT=' + cty, 'GM_NAME=get_multi__' + cty], min_post=5,
+                            clause_note='contracts/C17_getters.h: every value of the option is converted in order and marked read; the first invalid text '
+                                        'stops with invalid_argument (later values stay unread); an absent option yields the empty vector',
+                            replay=Replay(mode='getter', extra=['get_multi', ty], **RP)))
     HT = 'harness/C17/getters_typed.c'
     for named in (1, 0):
         idn = 'name' if named else 'position'
